@@ -1,0 +1,196 @@
+//go:build verif
+// +build verif
+
+package leveldb
+
+import (
+	"sync"
+	"sync/atomic"
+
+	"github.com/syndtr/goleveldb/leveldb/storage"
+)
+
+// Export of how a table compaction was built (the version it was picked on, the seed tables handed to
+// newCompaction, the inputs after expand) and of the version every committed record was spawned from, plus
+// direct probes of tFiles.getOverlaps and version.pickMemdbLevel.  Everything is kept per storage (the key
+// VerifEdit.Stor carries) so that several DBs may run in one process.  Recording is off until
+// VerifPickExport(true) is called; VerifForgetPick drops what is kept for one storage.
+
+// VerifPick describes the table compaction most recently handed to tableCompaction.
+type VerifPick struct {
+	Version       []VerifTable // the version the compaction was picked on (c.v)
+	SourceLevel   int
+	Seed          []int64 // numbers of c.levels[0] as passed to newCompaction, before expand
+	T0, T1, GP    []int64 // numbers of c.levels[0], c.levels[1], c.gp after expand
+	ExpandLimit   int64
+	MaxGPOverlaps int64
+	NoTrivial     bool
+}
+
+type verifPickNote struct {
+	levels []tFiles
+	pick   VerifPick
+}
+
+type verifPickState struct {
+	mu    sync.Mutex
+	seedC *compaction
+	seed  []int64
+	pick  *verifPickNote
+	base  []tFiles
+	based bool
+}
+
+var (
+	verifPickOn     int32
+	verifPickStates sync.Map // storage.Storage -> *verifPickState
+)
+
+// VerifPickExport switches the recording done by the pick/commit-base hooks on or off (process-wide).
+func VerifPickExport(on bool) {
+	if on {
+		atomic.StoreInt32(&verifPickOn, 1)
+	} else {
+		atomic.StoreInt32(&verifPickOn, 0)
+	}
+}
+
+// VerifForgetPick drops everything recorded for the storage.
+func VerifForgetPick(stor storage.Storage) { verifPickStates.Delete(stor) }
+
+func verifPickStateOf(s *session) *verifPickState {
+	if atomic.LoadInt32(&verifPickOn) == 0 || s == nil || s.stor == nil {
+		return nil
+	}
+	key := s.stor.Storage
+	if x, ok := verifPickStates.Load(key); ok {
+		return x.(*verifPickState)
+	}
+	x, _ := verifPickStates.LoadOrStore(key, &verifPickState{})
+	return x.(*verifPickState)
+}
+
+func verifNums(tf tFiles) []int64 {
+	out := make([]int64, len(tf))
+	for i, t := range tf {
+		out[i] = t.fd.Num
+	}
+	return out
+}
+
+// verifNoteBase: session.commit pinned v and is about to spawn the new version from it.
+func verifNoteBase(s *session, v *version) {
+	st := verifPickStateOf(s)
+	if st == nil {
+		return
+	}
+	st.mu.Lock()
+	st.base, st.based = v.levels, true
+	st.mu.Unlock()
+}
+
+// verifPickSeed: newCompaction is about to call expand; c.levels[0] still holds the seed tables.
+func verifPickSeed(c *compaction) {
+	st := verifPickStateOf(c.s)
+	if st == nil {
+		return
+	}
+	st.mu.Lock()
+	st.seedC, st.seed = c, verifNums(c.levels[0])
+	st.mu.Unlock()
+}
+
+// verifNotePick: tableCompaction starts working on c.
+func verifNotePick(s *session, c *compaction, noTrivial bool) {
+	st := verifPickStateOf(s)
+	if st == nil {
+		return
+	}
+	st.mu.Lock()
+	defer st.mu.Unlock()
+	if st.seedC != c {
+		st.pick = nil
+		return
+	}
+	st.pick = &verifPickNote{levels: c.v.levels, pick: VerifPick{
+		SourceLevel:   c.sourceLevel,
+		Seed:          st.seed,
+		T0:            verifNums(c.levels[0]),
+		T1:            verifNums(c.levels[1]),
+		GP:            verifNums(c.gp),
+		ExpandLimit:   int64(s.o.GetCompactionExpandLimit(c.sourceLevel)),
+		MaxGPOverlaps: c.maxGPOverlaps,
+		NoTrivial:     noTrivial,
+	}}
+	st.seedC, st.seed = nil, nil
+}
+
+// VerifTakePick returns and clears the last compaction noted for the storage (nil if none).  Called from the
+// commit hook of a record that deletes tables it yields the compaction that produced the record: the commit
+// runs on the goroutine that ran tableCompaction.
+func VerifTakePick(stor storage.Storage) *VerifPick {
+	x, ok := verifPickStates.Load(stor)
+	if !ok {
+		return nil
+	}
+	st := x.(*verifPickState)
+	st.mu.Lock()
+	n := st.pick
+	st.pick = nil
+	st.mu.Unlock()
+	if n == nil {
+		return nil
+	}
+	p := n.pick
+	p.Version = verifDumpLevels(n.levels)
+	return &p
+}
+
+// VerifCommitBase returns the version the commit whose hook is running was spawned from (nil if not recorded).
+func VerifCommitBase(stor storage.Storage) []VerifTable {
+	x, found := verifPickStates.Load(stor)
+	if !found {
+		return nil
+	}
+	st := x.(*verifPickState)
+	st.mu.Lock()
+	lv, ok := st.base, st.based
+	st.mu.Unlock()
+	if !ok {
+		return nil
+	}
+	out := verifDumpLevels(lv)
+	if out == nil {
+		out = []VerifTable{}
+	}
+	return out
+}
+
+// VerifProbeOverlaps calls tFiles.getOverlaps on one level of the current version (pinned once) and returns
+// the level and the numbers of the tables returned.
+func VerifProbeOverlaps(db *DB, level int, umin, umax []byte, overlapped bool) (tf []VerifTable, got []int64) {
+	v := db.s.version()
+	defer v.release()
+	if level < 0 || level >= len(v.levels) {
+		return nil, nil
+	}
+	tables := v.levels[level]
+	res := tables.getOverlaps(nil, db.s.icmp, umin, umax, overlapped)
+	for _, t := range tables {
+		tf = append(tf, VerifTable{Level: level, Num: t.fd.Num, Size: t.size,
+			Imin: append([]byte(nil), t.imin...), Imax: append([]byte(nil), t.imax...)})
+	}
+	return tf, verifNums(res)
+}
+
+// VerifProbeMemdbLevel calls version.pickMemdbLevel on the current version (pinned once) and returns the
+// version, GetCompactionGPOverlaps(level) for level 0..6 and the level picked.
+func VerifProbeMemdbLevel(db *DB, umin, umax []byte, maxLevel int) (ver []VerifTable, gpLimits []int64, level int) {
+	v := db.s.version()
+	defer v.release()
+	ver = verifDumpLevels(v.levels)
+	for l := 0; l < 7; l++ {
+		gpLimits = append(gpLimits, int64(db.s.o.GetCompactionGPOverlaps(l)))
+	}
+	return ver, gpLimits, v.pickMemdbLevel(umin, umax, maxLevel)
+}
